@@ -190,15 +190,27 @@ func vC14KsRunInBubble(t *testing.T, c *vh.Case, sc vC14KsScn, target int) *vC14
 		cwg.Add(1)
 		go func() {
 			defer cwg.Done()
-			ctx := context.Background()
-			for _, st := range steps {
+			for i, st := range steps {
 				time.Sleep(st.gap)
+				// every fourth call (no PRNG draw) runs on a context that its caller cancels one datastore access
+				// time after the call began, i.e. usually while the worker is executing it: the caller leaves with
+				// its context's error, and the worker must neither wedge on the abandoned answer nor block Close
+				ctx, cancelCall := context.Background(), context.CancelFunc(func() {})
+				var cancelTm *time.Timer
+				if (cl*7+i)%4 == 3 {
+					ctx, cancelCall = context.WithCancel(ctx)
+					cancelTm = time.AfterFunc(lat, cancelCall)
+				}
 				call := &vC14KsCall{AfterClose: closeReturned.Load(), Start: bd.Since()}
 				func() {
 					defer func() {
 						if pv := recover(); pv != nil {
 							call.Panic = fmt.Sprintf("%v\n%s", pv, debug.Stack())
 						}
+						if cancelTm != nil {
+							cancelTm.Stop()
+						}
+						cancelCall()
 					}()
 					switch {
 					case st.kind < 4:
@@ -470,7 +482,7 @@ func vC14KsCase(t *testing.T, c *vh.Case, sc vC14KsScn) {
 
 func TestVerif_C14_keystore(t *testing.T) {
 	vh.Run(t, vh.Spec{Prop: "C14", Unit: "keystore", Quick: 60, Thorough: 2500, CostMs: 40,
-		Rule:    "PRNG plain keystore over the journaling datastore (every access 0.2-3 ms of virtual time, batch size 2-16, a first bulk Put of 0-12 keys) with 1-4 clients issuing 2-7 Put/Delete/Get/Size/ContainsPrefix/CountKeysUpTo/Empty; reference run counts boundary events, re-runs Close immediately after construction (worker still in loadSize), at 2 events on the worker's stack and 2 PRNG indices (thorough: all, <= 80); non-trivial = Close while the worker was inside an operation",
+		Rule:    "PRNG plain keystore over the journaling datastore (every access 0.2-3 ms of virtual time, batch size 2-16, a first bulk Put of 0-12 keys) with 1-4 clients issuing 2-7 Put/Delete/Get/Size/ContainsPrefix/CountKeysUpTo/Empty (every fourth call on a context its caller cancels one access time after the call began); reference run counts boundary events, re-runs Close immediately after construction (worker still in loadSize), at 2 events on the worker's stack and 2 PRNG indices (thorough: all, <= 80); non-trivial = Close while the worker was inside an operation",
 		Clauses: []string{"baseline-clean", "close-returns-in-bound", "no-goroutine-after-close", "close-again-returns", "op-no-panic", "late-call-errclosed", "no-goroutine-after-2min", "datastore-fenced"}},
 		func(c *vh.Case) {
 			r := c.R
